@@ -323,6 +323,27 @@ def digit_cases(rng, quick=True):
         add(d, 'XML character reference', po(list(GOOD), '#. type: Content of: <para>\nmsgid "<a>x</a>"\nmsgstr "<a%s>&#%s;&#x%s;</a%s>"\n\n' % (d, d, d, d)))
     return cases
 
+# ----------------------------------------------------------------------------- MO structure: every truncation point
+
+def mo_truncation_cases(rng):
+    """a small well-formed MO file (header, a message with context, a plural message; strings end exactly at EOF when the last
+    NUL is dropped) cut at EVERY length, and with each of its 32-bit words pointing just past / at / before the end"""
+    base = mo(list(GOOD), [(b'menu\x04File', b'Plik'), (b'%d file\x00%d files', b'%d plik\x00%d pliki'), (b'z', b'last')])
+    cases = []
+    for n in range(len(base)):
+        cases.append((base[:n], '.mo', {}, 'structure:MO file cut to %d of %d bytes' % (n, len(base))))
+    nstr = struct.unpack('<I', base[8:12])[0]
+    for w in range(7 + 4 * nstr):
+        at = 4 * w
+        for v in (len(base), len(base) - 1, len(base) + 1, len(base) - 4, 0, 0xFFFFFFFF, 0x7FFFFFFF):
+            cases.append((base[:at] + struct.pack('<I', v) + base[at + 4:], '.mo', {}, 'structure:MO word %d set to %d (file of %d bytes)' % (w, v, len(base))))
+        # the string this descriptor names ends exactly at the end of the file
+        old = struct.unpack('<I', base[at:at + 4])[0]
+        if w >= 7 and (w - 7) % 2 == 0:
+            off = struct.unpack('<I', base[at + 4:at + 8])[0]
+            cases.append((base[:at] + struct.pack('<I', max(len(base) - off, 0)) + base[at + 4:], '.mo', {}, 'structure:MO string %d made to end exactly at EOF' % ((w - 7) // 2)))
+    return cases
+
 # ----------------------------------------------------------------------------- codec exotica
 
 EXOTIC_PROBES = [b'\\ud800', b'\\udc00 \\ud800', b'\\ud800\\udc00', b'\\udfff', b'\\u0000', b'\\x00', b'\\ufffe', b'\\uffff', b'\\U0010ffff', b'\\U0001f600',
@@ -421,6 +442,7 @@ def all_cases(rng, thorough=False):
         ('white-space separators', whitespace_separator_cases(rng)),
         ('digits', digit_cases(rng, quick=not thorough)),
         ('codec exotica', exotica_cases(rng, thorough)),
+        ('MO truncation', mo_truncation_cases(rng)),
     ]
     cases = []
     counts = {}
